@@ -10,8 +10,8 @@ def _c03_case(c):
     for t in reversed(toks):
         if t.startswith("#"):
             return _json.loads(_zlib.decompress(_b64.b64decode(t[1:])).decode())
-    if toks and toks[0] == "XC" and len(toks) == 6:
-        return {"wrapper": [toks[1] == "1", toks[2] == "1", toks[3] == "1", unhex(toks[4]), unhex(toks[5])]}
+    if toks and toks[0] == "XC" and len(toks) == 7:
+        return {"wrapper": [toks[1] == "1", toks[2] == "1", toks[3] == "1", toks[4] == "1", unhex(toks[5]), unhex(toks[6])]}
     return {"raw": c}
 
 
